@@ -1,7 +1,8 @@
 --------------------------- MODULE MC_PowerLedger ---------------------------
 (* Bounded model for C01 / C02 (B1): three channels with launch powers 1, 2, 4; gains/losses 1/4, 1/2, 2        *)
 (* (uniform and tilted across the channels), ASE additions 0, 1/8, 1, NLI transfers of 0, 1/8, 1/2 of the      *)
-(* channel power, a band boundary after channel 1 or 2; every behaviour of at most MaxDepth operations.        *)
+(* channel power, every split of the three channels in two spectra (bands in either order, and the middle  *)
+(* channel against the outer two, whose merge interleaves); every behaviour of at most MaxDepth operations.    *)
 (* All integers met stay below 2^31 (TLC would stop with an overflow error otherwise).                          *)
 EXTENDS PowerLedger, TLC
 
@@ -13,7 +14,7 @@ MCLaunch == <<Q(1, 1), Q(2, 1), Q(4, 1)>>
 MCScaleArgs == { <<Q(1, 2), Q(1, 2), Q(1, 2)>>, <<Q(2, 1), Q(2, 1), Q(2, 1)>>, <<Q(1, 4), Q(1, 2), Q(2, 1)>> }
 MCAseArgs   == { <<Q(1, 8), Q(1, 8), Q(1, 8)>>, <<Q(1, 1), Q(1, 8), Q(0, 1)>> }
 MCNliArgs   == { <<Q(1, 8), Q(1, 8), Q(1, 8)>>, <<Q(1, 2), Q(1, 8), Q(0, 1)>> }
-MCCuts == {1, 2}
+MCSplits == (SUBSET (1..MCNCh)) \ {{}, 1..MCNCh}      \* every selection: lower / upper band first, middle channel out
 
 \* at most MaxDepth operations.  The bound is an explicit counter: TLCGet("level") is not a function of the state
 \* when several workers explore in parallel (measured here: 3 % of the states were missed), a counter is exact.
@@ -34,4 +35,6 @@ MCOthersUntouched    == [][OthersUntouchedStep]_mcvars
 \* vacuity witnesses (each must be VIOLATED when listed as an invariant)
 WitnessMuxAfterOps == ~(last.op = "Mux" /\ \E ch \in All(parts) : ch.A # RZero /\ ch.N # RZero)
 WitnessNoiseInBand == ~(Len(parts) = 2 /\ \E ch \in All(parts) : ch.A # RZero /\ ch.N # RZero)
+\* a merge that interleaves two spectra with different noise histories
+WitnessInterleavedMux == ~(last.op = "Mux" /\ Led(parts, 2).N # RZero /\ Led(parts, 1).N = RZero /\ Led(parts, 3).A # RZero)
 ==============================================================================
